@@ -2,6 +2,8 @@ import EmmyVerif.Lemmas.Events
 import EmmyVerif.Lemmas.EventsCore
 import EmmyVerif.Lemmas.Reader
 import EmmyVerif.Lemmas.EventsMarker
+import EmmyVerif.Lemmas.EventsDoc
+import EmmyVerif.Lemmas.EventsCompose
 import EmmyVerif.Gen.TreeCallGraph
 /-!
 # C01 — Syntax trees are lossless for every input text
@@ -260,3 +262,142 @@ example : (run step S.init [.mark, .mark, .bump, .complete 1]).map (fun s => ((r
     = some (0, 2) := by decide
 
 end Marker
+
+/-!
+## Layer `Doc`: the doc parser hands every byte of its comment group to the event stream (`DocSpec`)
+
+`Doc.D` models the token core of `LuaDocParser` (`init`/`bump`, `calc_next_current_token`,
+`eat_current_and_lex_next`, `lex_token`, `set_lexer_state` with `re_calc_detail` / `re_calc_cast_type`,
+`bump_to_end`, `set_current_token_kind`); the doc lexer is constrained only by the Reader discipline
+(`script`: any kinds, any lengths ≥ 1). The doc grammar is an arbitrary list of these operations.
+Tied to the Rust by `treedoc.replay`: the operation trace the hook records for every doc-parser run of the
+generated parses is replayed through `Doc.run`; event lists (kind class, start, length) must coincide.
+That the driver code has the assumed shape (`parse` = `init`; `parse_comment`; `parse_docs` loops until
+`TkEof` with no other exit — so an error return inside the doc grammar, e.g. at the syntax-level limit,
+cannot end the run early; `bump_to_end` only under `!reader.is_eof()`) is re-extracted from the source
+on every run (`Gen.TreeCallGraph.docShapes`).
+-/
+namespace Doc
+
+/-- **C01 doccore_spec.** For every comment group (non-empty, contiguous origin tokens from `g0` to
+`g1`, the first one a comment token), every behaviour of the doc lexer and every list of doc-grammar
+operations: when the parser is at `TkEof` — where `parse_docs`, the only loop that drives it, stops —
+the emitted doc tokens tile the group's bytes `[g0, g1)`: nothing dropped, nothing emitted twice. -/
+theorem C01_doccore_spec (toks : List OTok) (script : List (K × Nat)) (ops : List Op) (g0 g1 : Nat) (d : D)
+    (hw : WFT toks g0 g1) (hr : run (start toks script) ops = some d) (he : d.cur = .eof) :
+    Tiles d.events g0 g1 := by
+  obtain ⟨i1, i2⟩ := start_inv g0 g1 toks script hw
+  obtain ⟨j1, _⟩ := run_inv g0 g1 ops _ d i1 i2 hr
+  have ht := j1.tiles
+  obtain ⟨_, e2⟩ := j1.eof he
+  have : E g0 d = g1 := by simp [E, he, e2]
+  rw [this] at ht; exact ht
+
+/-- at every moment — also on an early return of the doc grammar — what has been emitted is a
+contiguous prefix of the group, and the token in hand starts exactly where it ends -/
+theorem C01_doccore_prefix (toks : List OTok) (script : List (K × Nat)) (ops : List Op) (g0 g1 : Nat) (d : D)
+    (hw : WFT toks g0 g1) (hr : run (start toks script) ops = some d) :
+    Tiles d.events g0 (E g0 d) ∧ E g0 d ≤ g1 ∧ d.cur ≠ .none := by
+  obtain ⟨i1, i2⟩ := start_inv g0 g1 toks script hw
+  obtain ⟨j1, j2⟩ := run_inv g0 g1 ops _ d i1 i2 hr
+  refine ⟨j1.tiles, ?_, j2⟩
+  cases hc : d.cur with
+  | none => exact absurd hc j2
+  | eof => obtain ⟨_, e2⟩ := j1.eof hc; simp [E, hc]; omega
+  | _ =>
+    all_goals
+      have hk : isInvalidKind d.cur = false := by rw [hc]; rfl
+      obtain ⟨hpos, hlen⟩ := j1.tok hk
+      have hv : rdInvalid d = false ∨ rdInvalid d = true := by cases rdInvalid d <;> simp
+      have hE : E g0 d = d.cstart := by simp [E, hc]
+      rw [hE]
+      -- the lexer position never passes the end of the group
+      have hP : P g0 d ≤ g1 := by
+        cases hrd : d.rd with
+        | none => exact absurd (j1.curok.c1 hrd) j2
+        | some r =>
+          obtain ⟨holt, hstop⟩ := j1.base.rdok r hrd
+          obtain ⟨t, ht⟩ : ∃ t, d.toks[d.oidx]? = some t := ⟨d.toks[d.oidx], List.getElem?_eq_getElem holt⟩
+          obtain ⟨_, _, _, c4, _, _⟩ := chain_get d.toks g0 g1 d.oidx t j1.base.wf.chain ht
+          simp only [P, hrd]
+          split
+          · rw [endOf_eq d t ht]; exact c4
+          · rename_i hn
+            have := hstop (by omega)
+            rw [endOf_eq d t ht] at this; omega
+      omega
+
+/-- T-src bridge: the driver code of the doc parser has the shape the model assumes, and the doc grammar
+never renames a token to `None`/`TkEof` -/
+theorem C01_doc_shapes_in_source :
+    Gen.TreeCallGraph.docShapes.all (fun x => x.2) = true ∧ 5 ≤ Gen.TreeCallGraph.docShapes.length ∧
+    ∀ k ∈ Gen.TreeCallGraph.docSetKindArgs, k ∉ ["None", "TkEof"] := by
+  decide
+
+/-! Non-vacuity (tests): `---@type A` + eol + `--- d`: doc lexer answers `---@`(4) `type`(4) ws(1) `A`(1),
+then the end of line is passed through, then `---`(3) ws(1) `d`(1). -/
+example :
+    (run (start [⟨false, .other 1, 10, 10⟩, ⟨true, .eol, 20, 1⟩, ⟨false, .other 1, 21, 5⟩]
+          [(.docStart, 4), (.other 7, 4), (.ws, 1), (.other 8, 1), (.normalStart, 3), (.ws, 1), (.detail, 1)])
+        [.setState .other, .bump, .setState .normal, .bump, .bump, .setState .init, .bump, .bump]).map
+      (fun d => (d.cur, d.events))
+    = some (.eof, [(.docStart, 10, 4), (.other 7, 14, 4), (.ws, 18, 1), (.other 8, 19, 1), (.eol, 20, 1),
+        (.normalStart, 21, 3), (.ws, 24, 1), (.detail, 25, 1)]) := by decide
+
+end Doc
+
+/-!
+## Composition: `parse_lossless`
+
+Reader tiling ∘ `bump_emits_all` ∘ `doccore_spec` ∘ `build_leaves`. The four layers meet at explicit
+interfaces: the lexer token ranges `rs` (Reader layer: they tile the text), the token-index events of the
+parser core for **any** grammar `g` (Core layer: they cover every token once, in order), the ranges
+`docOut x y` the doc parser emitted for the comment group `[x, y)` (Doc layer: they tile the group — this
+hypothesis is exactly the conclusion of `Doc.C01_doccore_spec`, see `doc_tiles_proj`), and the
+`MarkEvent` list handed to the tree builder, whose `EatToken`s carry those slices of the text in that
+order with any `NodeStart`/`NodeEnd` structure around them (Green layer). Positions count the elements of
+`text` (the Rust counts UTF-8 bytes of a `str`; the layers never split a char because every range comes
+from `Reader::bump`, which moves by whole chars).
+-/
+namespace Compose
+
+/-- the doc layer's tiling (with kinds) is a tiling of ranges -/
+theorem doc_tiles_proj (evs : List (Doc.K × Nat × Nat)) (a b : Nat) (h : Doc.Tiles evs a b) :
+    Tiles (evs.map fun e => (e.2.1, e.2.2)) a b := by
+  induction evs generalizing a with
+  | nil => exact h
+  | cons e es ih => obtain ⟨k, s, l⟩ := e; exact ⟨h.1, ih _ h.2⟩
+
+/-- **C01 parse_lossless.** For every text, every token-class list the lexer may produce for it, doc on or
+off, and every grammar: if the lexer ranges tile the text (Reader layer) and every comment group is tiled
+by what the doc parser emitted for it (Doc layer), then the token ranges of the event stream tile the
+text, and the tree built from any event list carrying these tokens has exactly the input as its text. -/
+theorem C01_parse_lossless (text : List Char) (toks : List Core.TK) (docOn : Bool) (g : Core.PS → Nat)
+    (rs : List (Nat × Nat)) (docOut : Nat → Nat → List (Nat × Nat)) (mevs : List Green.MEv) (r : Green.Elem)
+    (hlen : rs.length = toks.length) (hne : ∀ k ∈ toks, k ≠ Core.TK.eof)
+    (hread : Reader.Tiles rs 0 text.length)
+    (hdoc : ∀ x y, Core.Ev.doc x y ∈ (Core.chunkLoop toks docOn g toks.length (Core.init toks docOn)).events →
+      x < y ∧ Tiles (docOut x y) (startAt rs text.length x) (startAt rs text.length y))
+    (hev : (Green.evLeaves mevs).map (·.2) =
+      (expand rs docOut (Core.chunkLoop toks docOn g toks.length (Core.init toks docOn)).events).map
+        (fun r => (text.drop r.1).take r.2))
+    (hb : Green.build mevs = some r) :
+    Tiles (expand rs docOut (Core.chunkLoop toks docOn g toks.length (Core.init toks docOn)).events) 0 text.length ∧
+      r.text = text := by
+  have hcov := Core.C01_bump_emits_all toks docOn g hne
+  rw [List.range_eq_range'] at hcov
+  have hr := tiles_of_reader rs 0 text.length hread
+  have ht := expand_tiles rs text.length docOut hr _ 0 toks.length (by omega) hcov hdoc
+  have h0 : startAt rs text.length 0 = 0 := (startAt_spec rs 0 text.length hr).1
+  have hn : startAt rs text.length (0 + toks.length) = text.length := by
+    simp only [startAt, Nat.zero_add]
+    rw [List.getElem?_eq_none_iff.mpr (by omega)]
+  rw [h0, hn] at ht
+  refine ⟨ht, ?_⟩
+  have hc := tile_concat text _ 0 ht
+  rw [Green.C01_build_text mevs r hb]
+  simp only [Green.catText]
+  rw [List.flatMap_def, hev, ← List.flatMap_def, hc]
+  simp
+
+end Compose
